@@ -12,4 +12,13 @@ CLAIMS = {
         "note": "Not decided: actual crash/EIO injection at each I/O boundary and kernel-level durability of rename/fsync (OS trusted base A3); "
                 "partial raw write() on an unbuffered handle is assumed complete for regular files.",
     },
+    "C04": {
+        "technique": "static analysis: typestate counting over the CFG with exception edges, def-use shape of the batch argument, handler dominance, exception-escape, guard dominance over config access paths, sibling cross-check of apply_changes callers",
+        "text": "Decides on all CFG paths of apply_changes: version bump exactly once per normal return; store receives t4.approved_deltas unfiltered in one "
+                "batch call, per-delta fallback reachable only through the batch handler; store/cache errors cannot escape; invalidation exactly under "
+                "cache_bust_mode=='on-apply' over the configured namespaces; snapshot exactly under turn % max(1,n)==0. In run_turn and in every other "
+                "caller of apply_changes, T4, apply, their log records and the GEL passes are dominated by cfg:t4.enabled.",
+        "note": "Not decided: what a recording store double observes over arbitrary histories (version monotonicity, cadence arithmetic over time) - "
+                "these follow by a pencil argument from the decided clauses but no execution is made. Assumes A1 (patch hooks resolve to defaults).",
+    },
 }
